@@ -176,6 +176,23 @@ Print Assumptions C08_utf8_file.
 Theorem C08_utf8_register : forall cs, line_valid cs -> valid (flat cs).
 Proof. exact flat_valid. Qed.
 Print Assumptions C08_utf8_register.
+(* ---------- a refuted clause: the target of ^ can lie beyond the line (KF-CARET-PAST-EOL) ---------- *)
+(* the faithful model does NOT satisfy "a character-wise operator with an in-line motion affects a span of the
+   cursor line": on the lines 'a', '' (empty), 'b' the keys :2 d^ remove the empty LINE and put the newline into the
+   unnamed register and register 1 (lbuf_indents counts the terminator as a blank, so the target of ^ is the position
+   after it).  Replayed on the real editor: corpus/C08-kf-caret.json; repair: fixes/C08-caret-past-terminator.patch.
+   This is why C08_delete_put_chars_exec carries the hypothesis g_o2 <= slen l2 - 1 *)
+Theorem C08_caret_target_refuted : exists b e,
+  exec_prog b 23 [CGoto 2; COp 0 0 Od 0 (TMot Kcaret) []] = Some e /\
+  blen (s_buf e) < blen b /\ reg_get (s_regs e) 49 = Some ([10%N], false).
+Proof.
+  exists (buf_of_bytes [97; 10; 10; 98; 10]%N).
+  destruct (exec_prog (buf_of_bytes [97; 10; 10; 98; 10]%N) 23 [CGoto 2; COp 0 0 Od 0 (TMot Kcaret) []]) as [e|] eqn:E.
+  - exists e. split; [reflexivity|]. revert E. vm_compute. intro E. inversion E; subst. vm_compute. split; reflexivity.
+  - exfalso. revert E. vm_compute. discriminate.
+Qed.
+Print Assumptions C08_caret_target_refuted.
+
 (* ---------- the state invariant of the modelled commands ---------- *)
 (* every program of modelled commands keeps: valid UTF-8 (C08_utf8), every line well formed (exactly one newline
    character, at its end), and the cursor on an existing character of an existing line (C07's cursor_ok; (0,0) in
